@@ -1,7 +1,7 @@
 (* Proofs about the signature-hash models and the signature opcodes (C02). *)
 From Coq Require Import ZifyBool.
 From BV Require Import Base BaseProofs ScriptNum Script Interp Session Tx Sighash.
-From BV.Gen Require Import Consts.
+From BV.Gen Require Import Consts Sites.
 Local Open Scope Z_scope.
 
 (* ------------------------------------------------------------------ GetOp consumes a non-empty prefix *)
@@ -352,8 +352,10 @@ Lemma tapscript_weight_charged : forall c e sig key e' st b,
   (b = true -> ed_weight_left (e_ed e) < VALIDATION_WEIGHT_PER_SIGOP_PASSED -> st = SErr /\ e_err e' = SCRIPT_ERR_TAPSCRIPT_VALIDATION_WEIGHT).
 Proof.
   intros c e sig key e' st b H Hi. unfold eval_checksig_tapscript in H. rewrite Hi in H. cbn [negb] in H.
+  (* the generated comparison of the weight test is "< 0" *)
+  assert (Hg: forall w, cmp_eval site_weight_exhausted w 0 = (w <? 0)) by reflexivity.
   destruct (negb (zlen sig =? 0)) eqn:Es.
-  - cbn [set_ed e_ed ed_set_weight ed_weight_left] in H.
+  - cbn [set_ed e_ed ed_set_weight ed_weight_left] in H. rewrite !Hg in H.
     destruct (ed_weight_left (e_ed e) - VALIDATION_WEIGHT_PER_SIGOP_PASSED <? 0) eqn:Ew; cbn [andb] in H.
     + inversion H; subst. cbn. repeat split.
     + apply Z.ltb_ge in Ew.
